@@ -392,3 +392,30 @@ Proof.
   - apply orb_true_iff. left.
     rewrite (preserve_lemma _ _ _ _ _ _ _ Hs Hb Hp Hnin). apply ent_opt_eqb_refl.
 Qed.
+
+(* ---- the hypotheses of the theorems are invariants of the commands ------------------------------ *)
+
+Lemma fold_preserve_below lim l :
+  forall t, below_limit lim t -> below_limit lim (fold_left preserve_one l t).
+Proof.
+  induction l as [|[orig sv] l IH]; intros t Hb; cbn [fold_left]; [exact Hb|].
+  apply IH. unfold preserve_one. cbn [snd]. destruct sv; [apply below_limit_tdel|]; exact Hb.
+Qed.
+
+Lemma command_keeps_wf_lemma nc s c s' inside ex :
+  sorted (k_tab s) -> below_limit (k_lim s) (k_tab s) ->
+  run_cmd nc s c = (s', inside, ex) ->
+  sorted (k_tab s') /\ below_limit (k_lim s') (k_tab s').
+Proof.
+  intros Hs Hb Hr.
+  destruct (c_kind c) eqn:Ek; try (
+    destruct (command_restores_lemma _ _ _ _ _ _ Hs Hb Hr) as [-> ->];
+      [left; rewrite Ek; discriminate|split; assumption]).
+  destruct ex.
+  - destruct (command_restores_lemma _ _ _ _ _ _ Hs Hb Hr) as [-> ->];
+      [right; reflexivity|split; assumption].
+  - destruct (run_cmd_exec _ _ _ _ _ Ek Hr) as [s1 [stack [Hp ->]]].
+    pose proof (perform_redirs_wf _ _ _ _ _ _ _ (conj Hs Hb) Hp) as [[Hs1 Hb1] El].
+    cbn. split; [apply preserve_sorted; exact Hs1|].
+    unfold preserve_tab. apply fold_preserve_below. exact Hb1.
+Qed.
